@@ -218,6 +218,9 @@ def vcf_worlds(tier):
                                     for h in (0, 1):
                                         world["reads"].append({"sample": "S1", "chrom": "chrA", "hap": h, "segs": [[a, b, 5, 5]], "n": depth})
                                 yield world, dict(gt_qual_threshold=thr, nopriors=nopriors), None
+                                if not nopriors and depth in (1, 3) and nerr < 2 and (T or hom in (None, 0)):
+                                    # regularised priors; the prior VCF is judged by the same rules
+                                    yield world, dict(gt_qual_threshold=thr, constant=0.2 if thr != 3 else 1.0), None
     # trio
     for hp_f, hp_m in [((0, 0), (0, 1)), ((0, 1), (0, 0))]:
         for thr in (0, 10):
@@ -280,15 +283,21 @@ def run_vcf(inst):
         if trios:
             kw["ped"] = synth.write_ped(os.path.join(d, "fam.ped"), trios)
         out = os.path.join(d, "gt.vcf")
+        prior_out = os.path.join(d, "prior.vcf")
+        if not kw.get("nopriors"):
+            kw["prioroutput"] = prior_out
         try:
             with open(out, "w") as f:
                 run_genotype([paths["bam"]], paths["vcf"], reference=paths["fasta"], output=f, write_command_line_header=False, **kw)
         except Exception as e:  # noqa
             return Result(violations=[_vw("error", f"whatshap genotype failed: {type(e).__name__}: {e}", inst)])
         parsed = synth.parse_vcf(out)
+        all_records = [("", r) for r in parsed["records"]]
+        if not kw.get("nopriors") and os.path.exists(prior_out):
+            all_records += [("[prior VCF] ", r) for r in synth.parse_vcf(prior_out)["records"]]
         thr = opts.get("gt_qual_threshold", 0)
         thr_prob = 1.0 - 10 ** (-thr / 10.0)
-        for rec in parsed["records"]:
+        for which, rec in all_records:
             for call in rec["calls"]:
                 n += 1
                 gl = call.get("GL")
